@@ -15,9 +15,10 @@ REPO = os.environ.get("VERIF_REPO", "/repo")
 class H:
     """Kani harness descriptor."""
 
-    def __init__(self, name, cls, obligation, bound=None, tier="quick", timeout=900):
+    def __init__(self, name, cls, obligation, bound=None, tier="quick", timeout=900, playback=True):
         assert cls in ("complete", "modular", "bounded")
         self.name, self.cls, self.obligation, self.bound, self.tier, self.timeout = name, cls, obligation, bound, tier, timeout
+        self.playback = playback   # False: do not re-run with concrete playback (trace too large); the violation is reported at once
 
 
 def _san(s):
@@ -153,7 +154,12 @@ class Run:
                 if known:
                     self.report(obligation, {}, False)
                     continue
-                cex, reproduced = self.kani_counterexample(crate, module, h.name, h.timeout, st.get("unwind_rules"))
+                if h.playback:
+                    cex, reproduced = self.kani_counterexample(crate, module, h.name, h.timeout, st.get("unwind_rules"))
+                else:
+                    cex, reproduced = dict(harness=h.name, crate=crate, kani_log=logp,
+                                           note="concrete playback not attempted for this harness (its CBMC trace is too large: > 25 min measured); "
+                                                "the harness input is fixed by construction: " + (h.bound or "")), False
                 cex["failed_checks"] = r.failed_checks
                 cex["engine"] = "kani"
                 cex["harness_obligation"] = h.obligation
